@@ -134,11 +134,11 @@ def gen_cases(ctx, dts):
     return res
 
 
-def budget_split(ctx, lines, guard):
+def budget_split(ctx, lines, guard, scale=1.0):
     """light cases run everywhere; heavy ones (long C loop / long model divisor scan) are sampled within a budget."""
     quick = ctx.tier == "quick"
-    model_budget = 1.0e7 if quick else 1.5e8       # divisor-scan steps of the extracted model (~7 us each)
-    c_budget = 3.0e10 if quick else 6.0e11         # C loop iterations (~2 ns each), per build
+    model_budget = scale * (6.0e6 if quick else 1.5e8)       # divisor-scan steps of the extracted model (~7 us each)
+    c_budget = scale * (1.5e10 if quick else 6.0e11)         # C loop iterations (~2 ns each), per build
     light, heavy = [], []
     for l, g in zip(lines, guard):
         _, e1, e0 = g.split()
@@ -158,6 +158,14 @@ def budget_split(ctx, lines, guard):
         else:
             skipped += 1
     return [l for l, _, _ in light], kept, skipped
+
+
+def run_c_quiet(variant, lines, alarm_s):
+    """vlib.run_c with sanitizer stack traces / symbolisation off (a faulting case is a forked child that writes a report)"""
+    env = dict(os.environ)
+    env["ASAN_OPTIONS"] = "detect_leaks=1:abort_on_error=0:exitcode=99:allocator_may_return_null=1:symbolize=0"
+    env["UBSAN_OPTIONS"] = "print_stacktrace=0:halt_on_error=1:symbolize=0"
+    return vlib._run_sharded([os.path.join(vlib.BUILD, variant, "jlsrun"), "sigdef", str(alarm_s)], lines, vlib.NPROC, 3000, env)
 
 
 def norm_fault(s):
@@ -199,10 +207,16 @@ def check(ctx, cases, dts, cls):
     run_lines = light + heavy
     model = dict(zip(run_lines, vlib.run_model("sigdef", light, args=["align"]) + vlib.run_model("sigdef", heavy, args=["align"])))
     impl = {}
-    for variant in ("plain", "asan"):
-        got = vlib.run_c(variant, "sigdef", light, args=["5"]) + vlib.run_c(variant, "sigdef", heavy, args=["120"])
-        impl[variant] = dict(zip(run_lines, got))
-    dist = {"by_origin": {}, "by_outcome": {}, "by_width": {}, "heavy_run": len(heavy), "heavy_skipped_over_budget": skipped}
+    impl["plain"] = dict(zip(run_lines, run_c_quiet("plain", light, 5) + run_c_quiet("plain", heavy, 120)))
+    # a faulting case costs a fork + a sanitizer report on the ASan/UBSan build: all non-faulting cases, a sample of the faulting ones
+    pred_fault = [l for l in light if model[l].startswith("FAULT")]
+    ctx.rng.shuffle(pred_fault)
+    n_f = 1500 if ctx.tier == "quick" else 40000
+    skip_asan = set(pred_fault[n_f:])
+    asan_light = [l for l in light if l not in skip_asan]
+    impl["asan"] = dict(zip(asan_light + heavy, run_c_quiet("asan", asan_light, 5) + run_c_quiet("asan", heavy, 120)))
+    dist = {"by_origin": {}, "by_outcome": {}, "by_width": {}, "heavy_run": len(heavy), "heavy_skipped_over_budget": skipped,
+            "faulting_cases_not_repeated_on_asan_build": len(skip_asan)}
     # what the implementation stored, for the consistency oracle and the second pass
     stored = {}
     for l in run_lines:
@@ -212,20 +226,25 @@ def check(ctx, cases, dts, cls):
             stored[l] = "%s %s" % (l.split()[0], " ".join(t[1:]))
     slines = sorted(set(stored.values()))
     cons = dict(zip(slines, vlib.run_model("sigdef", slines, args=["consistent"])))
-    second_model = dict(zip(slines, vlib.run_model("sigdef", slines, args=["align"])))
-    second = {v: dict(zip(slines, vlib.run_c(v, "sigdef", slines, args=["5"]))) for v in ("plain", "asan")}
+    # second pass (stored definition defined again): same budgeting - a stored entries_per_summary of 0 takes the default
+    # again and can start a long loop
+    l2, h2, skipped2 = budget_split(ctx, slines, vlib.run_model("sigdef", slines, args=["guard"]), scale=0.3)
+    dist["second_pass_run"] = len(l2) + len(h2)
+    dist["second_pass_skipped_over_budget"] = skipped2
+    second_model = dict(zip(l2 + h2, vlib.run_model("sigdef", l2, args=["align"]) + vlib.run_model("sigdef", h2, args=["align"])))
+    second = {v: dict(zip(l2 + h2, run_c_quiet(v, l2, 5) + run_c_quiet(v, h2, 120))) for v in ("plain", "asan")}
 
     for l in run_lines:
         dt = int(l.split()[0])
         w = width(dt)
         gb = gmap[l].split()[0]
         m = model[l]
-        gp, ga = impl["plain"][l], impl["asan"][l]
+        gp, ga = impl["plain"][l], impl["asan"].get(l)
         o = origin[l]
         dist["by_origin"][o] = dist["by_origin"].get(o, 0) + 1
         # --- correspondence ---
         for variant, g in (("plain", gp), ("asan", ga)):
-            if norm_fault(g) != m:
+            if g is not None and norm_fault(g) != m:
                 cls.hit(None, l, "model and implementation differ on build %s: implementation=%r model=%r" % (variant, g, m))
         # --- the property on the implementation's result ---
         t = gp.split()
@@ -233,7 +252,7 @@ def check(ctx, cases, dts, cls):
             outcome = gp
             if norm_fault(gp) == "FAULT SIGFPE" and (gb[0] == "0" or gb[1] == "0"):
                 cls.hit("sigdef-overflow-divzero", l, "jls_core_signal_def_align divides by zero (%s; ASan/UBSan build: %s); guard bits sdf/spd/eps/ts=%s: "
-                        "a uint32 rounding wrapped to 0" % (gp, ga, gb))
+                        "a uint32 rounding wrapped to 0" % (gp, ga or "same class sampled, this case not repeated", gb))
             else:
                 cls.hit(None, l, "implementation faults: %s (guard bits %s)" % (gp, gb))
         elif len(t) == 7 and t[0] != "0":
@@ -262,6 +281,13 @@ def check(ctx, cases, dts, cls):
                 elif not bad:
                     cls.hit(None, l, "stored %s: level-1 entry not a multiple of 256 bits" % s)
             # --- normalising the stored parameters again ---
+            if s not in second_model:
+                dist["by_outcome"][outcome] = dist["by_outcome"].get(outcome, 0) + 1
+                dist["by_width"][w] = dist["by_width"].get(w, 0) + 1     # (stored => w is one of the 7 widths)
+                for variant in ("plain", "asan"):
+                    if not (variant == "asan" and ga is None):
+                        ctx.count((variant, l), nontrivial=True)
+                continue
             s2p, s2a, s2m = second["plain"][s], second["asan"][s], second_model[s]
             for variant, g in (("plain", s2p), ("asan", s2a)):
                 if norm_fault(g) != s2m:
@@ -272,16 +298,19 @@ def check(ctx, cases, dts, cls):
                 if not bad:
                     big = int(s.split()[1]) + int(s.split()[2]) - 1 >= U32 or int(s.split()[3]) + int(s.split()[4]) - 1 >= U32
                     cls.hit("sigdef-renormalise-overflow" if big else None, l,
-                            "stored %s is consistent, but defining a signal from it (second file) gives %s instead of the same parameters%s"
-                            % (s, s2p, " (spd+sdf-1 or eps+sumdf-1 >= 2^32)" if big else ""))
+                            "stored %s is consistent, but defining a signal from it (second file) gives %s instead of the same parameters%s\n"
+                            "line=%s" % (s, s2p, " (spd+sdf-1 or eps+sumdf-1 >= 2^32)" if big else "", s))
                 # stored-inconsistent cases that also change are part of the class already reported
         else:
             outcome = "unparsed"
             cls.hit(None, l, "unparsable implementation output %r" % gp)
         dist["by_outcome"][outcome] = dist["by_outcome"].get(outcome, 0) + 1
-        dist["by_width"][w] = dist["by_width"].get(w, 0) + 1
+        wk = w if w in (1, 4, 8, 16, 24, 32, 64) else "other (rejected by validation)"
+        dist["by_width"][wk] = dist["by_width"].get(wk, 0) + 1
         nontrivial = not outcome.startswith("rejected") or o == "validate"
         for variant in ("plain", "asan"):
+            if variant == "asan" and ga is None:
+                continue
             ctx.count((variant, l), nontrivial=nontrivial,
                       sample={"case": l, "guard_bits": gb, "implementation": gp, "model": m, "origin": o} if variant == "plain" and (ctx.cov["evaluations"] % 9973 == 0) else None)
     return dist, stored
@@ -295,7 +324,7 @@ def check_files(ctx, stored, cls):
     cand = cand[:400 if ctx.tier == "quick" else 6000]
     first = ["F " + l for l, _ in cand if len(l.split()) == 7]
     exp = [stored[l[2:]] for l in first]
-    got = vlib.run_c("asan", "sigdef", first, args=["20"])
+    got = run_c_quiet("asan", first, 20)
     n = 0
     again = []
     for l, e, g in zip(first, exp, got):
@@ -306,8 +335,8 @@ def check_files(ctx, stored, cls):
             cls.hit(None, l, "jls_wr_signal_def + reopen + jls_rd_signal gives %r, direct normalisation gives %r" % (g, want))
         else:
             again.append("F " + e)
-    got2 = vlib.run_c("asan", "sigdef", again, args=["20"])
-    direct2 = vlib.run_c("asan", "sigdef", [l[2:] for l in again], args=["5"])
+    got2 = run_c_quiet("asan", again, 20)
+    direct2 = run_c_quiet("asan", [l[2:] for l in again], 5)
     for l, g, d in zip(again, got2, direct2):
         ctx.count(("file2", l), nontrivial=True)
         if norm_fault(g) != norm_fault(d):
